@@ -240,10 +240,53 @@ fn small_vals<T: BE>(d: &[u8]) -> Vec<T> {
     }
 }
 
+/// The strategies look at the minimum, the maximum, the number of observations and (Freedman-Diaconis)
+/// two quantiles: the same observations presented as a stepped, reversed view inside a parent filled
+/// with a far larger sentinel must give the same verdict, the same width and the same edges.
+fn check_view_equiv<T: BE>(s: St, data: &[T], lx: &mut Local) -> u64 {
+    let owned = Array1::from(data.to_vec());
+    let sentinel = T::from_i64(120).unwrap();
+    let mut obs: Vec<String> = Vec::new();
+    for step in [-1isize, 2, -3] {
+        let host = nsmc::layouts::Host1::new(data, step, 1, sentinel.clone());
+        let view = host.view();
+        macro_rules! go {
+            ($ty:ident) => {{
+                let summary = |r: Result<$ty<T>, ndarray_stats::histogram::errors::BinsBuildError>| match r {
+                    Ok(b) => {
+                        let w = b.bin_width();
+                        format!("Ok(width {:?}; {:?})", w, b)
+                    }
+                    Err(e) => format!("Err({:?})", e),
+                };
+                (guarded(|| summary($ty::<T>::from_array(&owned))), guarded(|| summary($ty::<T>::from_array(&view))))
+            }};
+        }
+        let (a, b) = match s {
+            St::Sqrt => go!(Sqrt),
+            St::Rice => go!(Rice),
+            St::Sturges => go!(Sturges),
+            St::Fd => go!(FreedmanDiaconis),
+            St::Auto => go!(Auto),
+        };
+        match (&a, &b) {
+            (Ok(x), Ok(y)) => {
+                lx.check(x == y, "C12/view-differs-from-owned", || format!("[{}] {:?} on {:?}: from_array of the owned array gives {} but of the same observations as a view with step {} gives {}", T::NAME, s, data, x, step, y));
+            }
+            (Ok(x), Err(m)) => lx.fail("C12/panic", || format!("[{}] {:?} on {:?} as a view with step {} panicked: {} (owned array: {})", T::NAME, s, data, step, m, x)),
+            // a panic on the owned array is reported by the main check of this data set
+            (Err(_), _) => {}
+        }
+        obs.push(format!("{:?}", b));
+    }
+    hash_of(&obs)
+}
+
 fn run_small<T: BE>(c: &Small, lx: &mut Local) {
     let data: Vec<T> = small_vals(&c.digits);
     for s in STRATS {
         lx.single(|lx| check_one(s, &data, &|| format!("{:?}", data), lx));
+        lx.single(|lx| check_view_equiv(s, &data, lx));
     }
 }
 
@@ -432,7 +475,7 @@ fn main() {
     let cases = (0..=lmax).flat_map(|l| sequences(l, 5)).flat_map(|d| (0..5u8).map(move |ty| Small { digits: d.clone(), ty }));
     rep.run_sub(
         "small-complete",
-        &format!("every data set of length 0..={} over {{0,1,2,5,11}} (i32, i64, u32, usize) and {{0, 0.1, 0.7, 1/3, 1e6+0.1 or 60000.1}} (N64) x Sqrt, Rice, Sturges, FreedmanDiaconis, Auto", lmax),
+        &format!("every data set of length 0..={} over {{0,1,2,5,11}} (i32, i64, u32, usize) and {{0, 0.1, 0.7, 1/3, 1e6+0.1 or 60000.1}} (N64) x Sqrt, Rice, Sturges, FreedmanDiaconis, Auto; each data set also as a reversed, a stepped and a stepped-reversed view inside a sentinel-filled parent: same verdict, width, minimum and maximum as for the owned array", lmax),
         cases,
         |c, lx| {
             let mut d = c.digits.clone();
